@@ -191,6 +191,11 @@ Proof.
 Qed.
 Print Assumptions C17_repr_indep.
 
+(* PointJacobi.__eq__ (hand model) decides exactly that relation *)
+Theorem C17_eq : forall p P Q, pj_eqb p P Q = true <-> jac_eq p P Q.
+Proof. exact pj_eqb_spec. Qed.
+Print Assumptions C17_eq.
+
 (* NAF: for all k >= 0 the generated loop terminates within its fuel; sum d_i 2^i = k,
    digits in {-1,0,1}, non-adjacent, top digit 1, length <= log2 k + 2 *)
 Theorem C17_naf : forall k, 0 <= k ->
